@@ -546,6 +546,7 @@ type Clause struct {
 	AtOrd int
 	Only string   // assumption tag (e.g. "ReaderProgress" for decreases ... assuming X)
 	Tags []string // properties served (overrides function-level)
+	Target *ECall // ghostset: the gfa(obj, "name", index) being assigned
 }
 
 type SpecFunc struct {
@@ -889,6 +890,15 @@ func (cs *Contracts) parse(path, data string) error {
 						return fail(err)
 					}
 					cl.E = e
+					if strings.HasPrefix(cl.Name, "set ") {
+						// ghost at "line" set gfa(obj, "name", index) = expr : ghost array update
+						t, err := parseExpr(strings.TrimSpace(cl.Name[4:]))
+						call, ok := t.(ECall)
+						if err != nil || !ok || call.Fn != "gfa" || len(call.Args) != 3 {
+							return fail(fmt.Errorf("ghost set needs gfa(obj, \"name\", index) = expr"))
+						}
+						cl.Kind, cl.Target = "ghostset", &call
+					}
 					cur.Clauses = append(cur.Clauses, cl)
 					break
 				}
